@@ -194,4 +194,7 @@ def replay_plan(ob):
     if not op:
         return None
     a, b = ('true', 'false') if op in ('&&', '||', '^^', 'and', 'or', 'xor') else (('"a"', '"a"') if op in ('=~', '!~') else (('1', '[1]') if op == '_:' else ('8', '1')))
-    return 'milu_script', {'driver': 'parse', 'args': {'source': '%s %s %s' % (a, op, b)}}, lambda o: o.get('parsed') is False or bool(o.get('panicked'))
+    # the operator in the contexts the grammar allows around it: blanks, a parenthesised operand glued to it, a comment right after it
+    srcs = ['%s %s %s' % (a, op, b), '%s %s(%s)' % (a, op, b), '(%s)%s %s' % (a, op, b), '%s %s/* c */%s' % (a, op, b)]
+    cases = [{'driver': 'parse', 'args': {'source': x}} for x in srcs]
+    return 'milu_script', cases, lambda o: o.get('parsed') is False or bool(o.get('panicked'))
